@@ -42,7 +42,7 @@ Definition src_read_inner (d : bytes) (evs : list revent) (room : N) : read_resu
   end.
 
 Definition src_read (pre d : bytes) (evs : list revent) (room : N) : read_result * source :=
-  if (0 <? nlen pre) && (0 <? room) then
+  if 0 <? nlen pre then
     let k := N.min room (nlen pre) in
     (ROk (nfirstn k pre) k, {| prebuf := nskipn k pre; data := d; events := evs |})
   else src_read_inner d evs room.
@@ -56,7 +56,7 @@ Fixpoint read_retry_inner (evs : list revent) (d : bytes) (room : N) (calls : N)
   | _ => (src_read_inner d evs room, calls + 1)
   end.
 Definition read_retry (sr : source) (room : N) (calls : N) : read_result * source * N :=
-  if (0 <? nlen (prebuf sr)) && (0 <? room) then (src_read (prebuf sr) (data sr) (events sr) room, calls)   (* Cursor, not the inner reader *)
+  if 0 <? nlen (prebuf sr) then (src_read (prebuf sr) (data sr) (events sr) room, calls)   (* Cursor, not the inner reader *)
   else read_retry_inner (events sr) (data sr) room calls.
 
 (* ---- the reader ---- *)
@@ -114,59 +114,62 @@ Inductive rm_result :=
 | RMDone (progress : bool) (s : rstate)
 | RMPanic (k : panic_kind) (s : rstate).
 
-Definition request_more (s : rstate) : rm_result :=
-  if complete s then RMDone false s else
-  let realign := 2 * chunk_size s <? pos_in_buf s in
-  if realign && negb (pos_in_buf s + valid_len s <=? nlen (buf s)) then
-    RMPanic PIndex s                               (* copy_within range check *)
-  else
+(* Phase 1 of request_more: make room for one more chunk (realign, maybe
+   shrink, grow).  No read happens here. *)
+Definition realign_needed (s : rstate) : bool := 2 * chunk_size s <? pos_in_buf s.
+
+Definition with_layout (s : rstate) (b : bytes) (pib pob mib : N) : rstate :=
+  {| src := src s; buf := b; pos_in_buf := pib; valid_len := valid_len s; complete := complete s;
+     io_error := io_error s; pos_of_buf := pob; mark_in_buf := mib; chunk_size := chunk_size s;
+     g_calls := g_calls s; g_delivered := g_delivered s; g_consumed := g_consumed s; g_mark := g_mark s;
+     g_terminal := g_terminal s; g_calls_after_terminal := g_calls_after_terminal s |}.
+
+Definition prep (s : rstate) : rstate :=
+  let realign := realign_needed s in
   let b1 := if realign then copy_to_front (buf s) (pos_in_buf s) (valid_len s) else buf s in
   let pob := if realign then wadd64 (pos_of_buf s) (pos_in_buf s) else pos_of_buf s in
+  (* the mark is rebased with the old pos_in_buf, before that is zeroed *)
   let mib := if realign then wsub64 (mark_in_buf s) (pos_in_buf s) else mark_in_buf s in
   let pib := if realign then 0 else pos_in_buf s in
   let b2 := if realign && (4 * (pib + valid_len s + chunk_size s) <? nlen b1)
             then nfirstn (nlen b1 / 2) b1 else b1 in
   let target_end := pib + valid_len s + chunk_size s in
   let b3 := if nlen b2 <? target_end then grow b2 target_end else b2 in
-  let '(r, src', calls') := read_retry (src s) (chunk_size s) (g_calls s) in
-  let after_term := if g_terminal s then g_calls_after_terminal s + (calls' - g_calls s)
-                    else g_calls_after_terminal s in
+  with_layout s b3 pib pob mib.
+
+(* Phase 2: the read loop and the bookkeeping of its result. *)
+Definition after_read (s : rstate) (sr : source) (calls : N) (b : bytes) (vl : N) (compl : bool)
+           (err : option N) (deliv : bytes) (term : bool) : rstate :=
+  {| src := sr; buf := b; pos_in_buf := pos_in_buf s; valid_len := vl; complete := compl;
+     io_error := err; pos_of_buf := pos_of_buf s; mark_in_buf := mark_in_buf s; chunk_size := chunk_size s;
+     g_calls := calls; g_delivered := deliv; g_consumed := g_consumed s; g_mark := g_mark s;
+     g_terminal := term;
+     g_calls_after_terminal := if g_terminal s then g_calls_after_terminal s + (calls - g_calls s)
+                               else g_calls_after_terminal s |}.
+
+Definition finish_read (s : rstate) : rm_result :=
+  let '(r, sr, calls) := read_retry (src s) (chunk_size s) (g_calls s) in
   match r with
   | ROk bs claimed =>
-      let b4 := splice b3 (pib + valid_len s) bs in
-      let s1 := {| src := src'; buf := b4; pos_in_buf := pib; valid_len := valid_len s;
-                   complete := complete s; io_error := io_error s; pos_of_buf := pob; mark_in_buf := mib;
-                   chunk_size := chunk_size s; g_calls := calls'; g_delivered := g_delivered s ++ bs;
-                   g_consumed := g_consumed s; g_mark := g_mark s;
-                   g_terminal := g_terminal s || (claimed =? 0);
-                   g_calls_after_terminal := after_term |} in
+      let b4 := splice (buf s) (pos_in_buf s + valid_len s) bs in
       if claimed =? 0 then
-        RMDone true {| src := src s1; buf := buf s1; pos_in_buf := pib; valid_len := valid_len s;
-                       complete := true; io_error := io_error s; pos_of_buf := pob; mark_in_buf := mib;
-                       chunk_size := chunk_size s; g_calls := calls'; g_delivered := g_delivered s1;
-                       g_consumed := g_consumed s; g_mark := g_mark s; g_terminal := true;
-                       g_calls_after_terminal := after_term |}
+        RMDone true (after_read s sr calls b4 (valid_len s) true (io_error s) (g_delivered s ++ bs) true)
       else if chunk_size s <? claimed then
         (* the load-bearing assert: bytes were written past the window but are not part of it *)
         RMPanic PReadContract
-                {| src := src s1; buf := buf s1; pos_in_buf := pib; valid_len := valid_len s;
-                   complete := complete s; io_error := io_error s; pos_of_buf := pob; mark_in_buf := mib;
-                   chunk_size := chunk_size s; g_calls := calls'; g_delivered := g_delivered s;
-                   g_consumed := g_consumed s; g_mark := g_mark s; g_terminal := g_terminal s;
-                   g_calls_after_terminal := after_term |}
+                (after_read s sr calls b4 (valid_len s) (complete s) (io_error s) (g_delivered s) (g_terminal s))
       else
-        RMDone true {| src := src s1; buf := buf s1; pos_in_buf := pib; valid_len := valid_len s + claimed;
-                       complete := complete s; io_error := io_error s; pos_of_buf := pob; mark_in_buf := mib;
-                       chunk_size := chunk_size s; g_calls := calls'; g_delivered := g_delivered s1;
-                       g_consumed := g_consumed s; g_mark := g_mark s; g_terminal := g_terminal s;
-                       g_calls_after_terminal := after_term |}
+        RMDone true (after_read s sr calls b4 (valid_len s + claimed) (complete s) (io_error s)
+                                (g_delivered s ++ bs) (g_terminal s))
   | RErr e =>
-      RMDone true {| src := src'; buf := b3; pos_in_buf := pib; valid_len := valid_len s;
-                     complete := true; io_error := Some e; pos_of_buf := pob; mark_in_buf := mib;
-                     chunk_size := chunk_size s; g_calls := calls'; g_delivered := g_delivered s;
-                     g_consumed := g_consumed s; g_mark := g_mark s; g_terminal := true;
-                     g_calls_after_terminal := after_term |}
+      RMDone true (after_read s sr calls (buf s) (valid_len s) true (Some e) (g_delivered s) true)
   end.
+
+Definition request_more (s : rstate) : rm_result :=
+  if complete s then RMDone false s else
+  if realign_needed s && negb (pos_in_buf s + valid_len s <=? nlen (buf s)) then
+    RMPanic PIndex s                               (* copy_within range check *)
+  else finish_read (prep s).
 
 (* `while valid_len < len && request_more() {}` / `while valid_len <= offset { if !request_more() .. }` *)
 Inductive loop_result :=
